@@ -33,7 +33,9 @@ EXPLANATION = (
     ' '
     'R-C07.8 second clause: the models a batch creates and the evolutions it applies share one sql_executor scope; R-C07.9 no finally block of the package is left through return/break/continue (the in-flight commit/rollback error would be discarded).'
     ' '
-    'R-C07.10 (= R-C17.9) no __exit__ of the package returns anything but None/False.')
+    'R-C07.10 (= R-C17.9) no __exit__ of the package returns anything but None/False.'
+    ' '
+    'R-C07.11 (= R-C08.9) only utils.sql begins or ends transactions (who-may-call finish_transaction / new_transaction / commit).')
 NOT_DECIDED = (
     'Actual rollback behaviour of SQLite/Django for every failing statement '
     'index, and retry equivalence: these need execution (fault enumeration) '
@@ -898,7 +900,44 @@ def r10_exit_never_suppresses(ctx, rule_id='R-C07.10'):
     ctx.floor('__exit__ methods in the package', n, 1)
 
 
+def r11_only_the_executor_ends_transactions(ctx, rule_id='R-C07.11'):
+    """One SQLExecutor scope is one transaction: execute_tasks() runs all
+    apps of a batch through one executor so that they commit or roll back
+    together, and the evolutions are recorded only after every task
+    succeeded.  Only the executor itself (utils/sql.py) may therefore call
+    finish_transaction() / new_transaction() / commit(): a task that ends
+    the transaction before running its SQL commits the SQL of the apps
+    before it, and a failure afterwards leaves that SQL applied but
+    unrecorded - the retry runs it again."""
+    ctx.rule(rule_id)
+    p = ctx.program
+    n = 0
+    hit = False
+    for m in p.modules.values():
+        for f in m.all_funcs():
+            for c in walk_no_nested(f.node, include_lambda=True):
+                if isinstance(c, ast.Call) and call_name(c) in (
+                        'finish_transaction', 'new_transaction', 'commit',
+                        'set_autocommit'):
+                    n += 1
+                    if m.name.endswith('utils.sql') or \
+                            m.name.endswith('compat.db'):
+                        continue
+                    hit = True
+                    ctx.finding(f, c, '%s calls %s(): the transaction of the '
+                                'executor scope it was handed is ended in '
+                                'the middle of a batch, so what ran before '
+                                'is committed independently of what '
+                                'follows' % (f.qualname, call_name(c)),
+                                key='transaction-ended-outside-executor')
+    ctx.floor('transaction boundary calls in the package', n, 3)
+    if not hit:
+        ctx.ok(('django_evolution.utils.sql', 'SQLExecutor'),
+               'transactions are only begun/ended inside utils.sql')
+
+
 def run(ctx):
+    r11_only_the_executor_ends_transactions(ctx)
     r10_exit_never_suppresses(ctx)
     r9_finally_does_not_swallow(ctx)
     r5b_new_transaction_flag_provenance(ctx)
